@@ -425,6 +425,12 @@ class Interp:
         if op == 'Eq':
             return self.equals(a, b)
         if op == 'NotEq':
+            # `!=` is its own dunder (__ne__): array-like values answer elementwise, not with a truth value
+            for x, y in ((a, b), (b, a)):
+                if hasattr(x, 'py_ne'):
+                    r = x.py_ne(self, y)
+                    if r is not NOT_IMPLEMENTED:
+                        return r
             return z_not(self.truth_term(self.equals(a, b)))
         for x, refl in ((a, False), (b, True)):
             if hasattr(x, 'py_compare'):
